@@ -165,7 +165,7 @@ func ParseContractFile(path string) (*ContractFile, error) {
 			}
 			switch kind {
 			case "requires", "ensures", "modifies", "invariant", "decreases", "local", "terminates", "inline",
-				"recovers", "nopanic", "fresh", "lemma", "assert", "assume", "pure", "split", "appends", "appendsAll", "copies", "mapStore", "mapDelete", "opaque", "panics", "trusted", "variant", "unroll", "calls_only", "lock", "ghost", "known", "uselemma", "exit":
+				"recovers", "nopanic", "fresh", "lemma", "assert", "assume", "pure", "split", "appends", "appendsAll", "copies", "mapStore", "mapDelete", "opaque", "panics", "trusted", "variant", "unroll", "calls_only", "lock", "ghost", "known", "uselemma", "exit", "partial":
 				cl.Kind = kind
 				cl.Text = rest
 				cur.Clauses = append(cur.Clauses, cl)
